@@ -214,9 +214,9 @@ class Roles:
     @property
     def drain_fn(self):
         d = self.drain_fns
-        if len(d) != 1:
-            raise AnchorLost("DRAIN: exactly one crate function must call POP (found %d)" % len(d))
-        return d[0]
+        if len(d) < 1:
+            raise AnchorLost("DRAIN: no crate function calls POP")
+        return d[0]          # every rule about DRAIN is evaluated on each drain function (R.drain_fns)
 
     def pop_sites(self, body):
         pops = {p.path for p in self.pop_fns}
@@ -322,6 +322,11 @@ class Roles:
                     flds = adt["variants"][0]["fields"]
                     holder = [f for f in flds if (e + "<") in f["ty"]]
                     usz = [f for f in flds if re.match(r"(usize|u8|u16|u32|u64|u128)$", f["ty"])]      # widths are C02 R2.2's obligation
+                    # the bookkeeping may be grouped in a private struct of its own (`free: FreeList { head, filled }`)
+                    for f in flds:
+                        sub = self.f.adts.get(f["ty"].split("<")[0])
+                        if sub is not None and sub["kind"] == "struct" and f not in holder:
+                            usz += [g for g in sub["variants"][0]["fields"] if re.match(r"(usize|u8|u16|u32|u64|u128)$", g["ty"])]
                     if holder and len(usz) >= 2:
                         return (e, path, holder[0]["name"])
             raise AnchorLost("SLOT: no crate enum {occupied(F), free(usize)} stored by a struct with usize bookkeeping")
